@@ -38,6 +38,8 @@ TEMPLATES = {
     ('cpp', 'support'): 'src/nunavut/lang/cpp/support/serialization.j2',
 }
 FILTER = 'to_static_assertion_value'
+# message pieces that interpolate the DSDL path without escaping (OptGuard.v raw_path_msg_exprs; finding F-OPTGUARD-MSG-PATH)
+RAW_PATH_EXPRS = ('T.source_file_path.as_posix() if nunavut.embed_auditing_info else T.source_file_path.name', 'T.source_file_path.as_posix()')
 LOCAL_INCLUDE = '"verif_%s.hpp"'             # value of an *_include option: a quoted include path
 SPECIAL_SUFFIX = ' /* 100% "q" \\a */'       # harmless in code (a comment), hostile inside a string literal
 MESSAGE = 'different language options'
@@ -178,14 +180,15 @@ def _skip_from_cond(cond: str, keyvar: str) -> typing.List[str]:
 
 def c_context(text: str, pos: int, where: str) -> typing.Tuple[bool, typing.List[str]]:
     """C/C++ level context of offset `pos` of a template (Jinja comments already blanked): (inside a /* */ or // comment?,
-    enclosing preprocessor conditionals that are not include guards).  An include guard is `#ifndef X` directly followed by
-    `#define X`.  A conditional whose #else/#elif branch is the open one is reported with that branch.  Linear scan of the
+    enclosing preprocessor conditionals that are not the include guard).  The include guard is the first conditional of the
+    file, at depth 0, of the form `#ifndef X` directly followed by `#define X`.  A conditional whose #else/#elif branch is the open one is reported with that branch.  Linear scan of the
     template text: preprocessor lines produced under Jinja conditionals are treated as if always emitted (fail-closed side)."""
     pre = text[:pos]
     lines = pre.split('\n')
     in_block = False
     stack: typing.List[typing.List[str]] = []     # [directive text, 'guard' | 'cond']
     in_line_comment_at_end = False
+    seen_conditional = False
     all_lines = text.split('\n')
     for li, line in enumerate(lines):
         last = li == len(lines) - 1
@@ -228,12 +231,13 @@ def c_context(text: str, pos: int, where: str) -> typing.Tuple[bool, typing.List
         d, arg = m.group(1), _norm(m.group(2))
         if d in ('if', 'ifdef', 'ifndef'):
             kind = 'cond'
-            if d == 'ifndef':
+            if d == 'ifndef' and not stack and not seen_conditional:   # only the outermost, first conditional can be the include guard
                 nxt = next((l for l in all_lines[li + 1:] if l.strip()), '')
                 dm = re.match(r'\s*#\s*define\s+(.+?)\s*$', nxt)
                 if dm and _norm(dm.group(1)) == arg:
                     kind = 'guard'
             stack.append(['#%s %s' % (d, arg), kind])
+            seen_conditional = True
         elif d in ('elif', 'else'):
             if not stack:
                 raise Unsupported('%s: #%s without #if' % (where, d))
@@ -261,13 +265,30 @@ def _namespaces(pre: str, where: str) -> typing.List[str]:
     return ns
 
 
+def _cond(rest: str) -> str:
+    """canonical text of a Jinja condition; `not (a.b.c)` (the else-branch of `if a.b.c`) is `not a.b.c`"""
+    r = _norm(rest)
+    m = re.fullmatch(r'not \(([\w.]+)\)', r)
+    return 'not ' + m.group(1) if m else r
+
+
 def _block_stack(text: str, pos: int, where: str):
+    """open Jinja blocks at offset pos.  The else-branch of `if c` is reported as `if not (c)`; elif and for-else are
+    reported under names no caller accepts (fail closed)."""
     stack: typing.List[typing.Tuple[str, str, typing.Any]] = []
     for m, w, rest in _tags(text):
         if m.start() > pos:
             break
         if w in OPENERS or (w == 'set' and '=' not in rest):
             stack.append((w, rest, m))
+        elif w in ('else', 'elif'):
+            if not stack:
+                raise Unsupported('%s: %s outside any block near offset %d' % (where, w, m.start()))
+            tw, trest, tm = stack[-1]
+            if tw == 'if' and w == 'else' and not trest.startswith('<'):
+                stack[-1] = ('if', 'not (%s)' % _norm(trest), tm)
+            else:
+                stack[-1] = (tw, '<%s-branch of> %s' % (w, trest), tm)
         elif w.startswith('end'):
             if not stack or stack[-1][0] != w[3:]:
                 raise Unsupported('%s: unbalanced block tags near offset %d' % (where, m.start()))
@@ -298,7 +319,7 @@ def scan_keyset(lang: str, kind: str, text: str) -> typing.Tuple[typing.Optional
     if kind == 'type' and MESSAGE not in re.sub(r'"\s*"', '', m.group('msg')):
         raise Unsupported('%s: the key-set assertion message does not name the mismatch' % where)
     stack = _block_stack(text, m.start(), where)
-    ctx = [(w, _norm(rest)) for w, rest, _m in stack]
+    ctx = [(w, _cond(rest)) for w, rest, _m in stack]
     unless_omit = False
     if ctx and ctx[0] == ('if', 'not nunavut.support.omit'):
         unless_omit = True
@@ -323,25 +344,36 @@ def scan_keyset(lang: str, kind: str, text: str) -> typing.Tuple[typing.Optional
     return {'symbol': sym, 'unless_omit': unless_omit, 'msg_exprs': msg_exprs, 'in_comment': in_comment, 'pp': pp, 'pos': m.start()}, blanked
 
 
+def forbid_redefinitions(lang: str, kind: str, text: str, where: str) -> None:
+    """fail closed on anything in a guard template that could neutralise the assertions without touching them: a
+    #define / #undef of the assertion macros or of the guard symbols (other than the scanned definitions), and a Jinja
+    re-binding of the globals the guard is rendered from"""
+    for m in re.finditer(r'^[ \t]*#[ \t]*(define|undef)[ \t]+(static_assert|_Static_assert|assert|NUNAVUT_ASSERT\w*)\b', text, re.M):
+        raise Unsupported('%s: #%s %s' % (where, m.group(1), m.group(2)))
+    for m in re.finditer(r'^[ \t]*#[ \t]*undef\b[^\n]*(LANGUAGE_OPTION|language_options_key_set|static_assert)', text, re.M):
+        raise Unsupported('%s: #undef of a guard symbol' % where)
+    n_def = len(re.findall(r'^[ \t]*#[ \t]*define[ \t]+[^\n]*LANGUAGE_OPTION', text, re.M))
+    expected = 2 if (lang, kind) == ('c', 'support') else 0      # the per-option #define and the key-set #define
+    if n_def > expected:
+        raise Unsupported('%s: %d #define lines mention LANGUAGE_OPTION (at most %d expected)' % (where, n_def, expected))
+    for _m, w, rest in _tags(text):
+        if w == 'set' and re.match(r'(options|nunavut|T)\b', rest.strip()):
+            raise Unsupported('%s: `{%% set %s %%}` re-binds a global the guard is rendered from' % (where, rest.strip()[:40]))
+        if w == 'for' and re.match(r'[\w\s,]*\b(options|nunavut)\b[\w\s,]*\bin\b', rest.split(' in ')[0] + ' in') and 'options' in rest.split(' in ')[0].split(','):
+            raise Unsupported('%s: loop variable shadows `options`' % where)
+
+
 def scan_loop(lang: str, kind: str, text: str) -> dict:
     where = TEMPLATES[(lang, kind)]
     text = _strip_comments(text)
+    forbid_redefinitions(lang, kind, text, where)
     keyset, text = scan_keyset(lang, kind, text)
     occ = [m.start() for m in re.finditer(re.escape(FILTER), text)]
     if len(occ) != 1:
         raise Unsupported('%s: %d uses of %s (expected exactly one guard loop)' % (where, len(occ), FILTER))
     pos = occ[0]
     # block stack at the position of the filter use
-    stack: typing.List[typing.Tuple[str, str, typing.Any]] = []
-    for m, w, rest in _tags(text):
-        if m.start() > pos:
-            break
-        if w in OPENERS or (w == 'set' and '=' not in rest):
-            stack.append((w, rest, m))
-        elif w.startswith('end'):
-            if not stack or stack[-1][0] != w[3:]:
-                raise Unsupported('%s: unbalanced block tags near offset %d' % (where, m.start()))
-            stack.pop()
+    stack = _block_stack(text, pos, where)
     fors = [i for i, s in enumerate(stack) if s[0] == 'for']
     if len(fors) != 1:
         raise Unsupported('%s: the guard is nested in %d for-loops' % (where, len(fors)))
@@ -349,7 +381,7 @@ def scan_loop(lang: str, kind: str, text: str) -> dict:
     outer, (_, for_rest, for_m), inner = stack[:fi], stack[fi], stack[fi + 1:]
     unless_omit = False
     for w, rest, _m in outer:
-        if w == 'if' and _norm(rest) == 'not nunavut.support.omit':
+        if w == 'if' and _cond(rest) == 'not nunavut.support.omit':
             unless_omit = True
         else:
             raise Unsupported('%s: guard loop inside `%s %s`' % (where, w, rest[:60]))
@@ -468,7 +500,7 @@ def scan_loop(lang: str, kind: str, text: str) -> dict:
                 if lm:
                     ipos = fm.end() + lm.start() + lm.group(0).index('#')
                     ic, ipp = c_context(text, ipos, where)
-                    inner_stack = [(w_, _norm(r_)) for w_, r_, _m in _block_stack(text, ipos, where)]
+                    inner_stack = [(w_, _cond(r_)) for w_, r_, _m in _block_stack(text, ipos, where)]
                     outer_ok = all(x == ('if', 'not nunavut.support.omit') for x in inner_stack[:-1]) if inner_stack else False
                     includes_before = (not ic) and not [x for x in ipp if x not in pp] and bool(inner_stack) \
                         and inner_stack[-1][0] == 'for' and outer_ok
